@@ -12,7 +12,7 @@ LEAN_HELPERS = ['MV.Lemmas.Project', 'MV.Lemmas.ProjectDen', 'MV.Lemmas.ProjectR
                 'MV.Model.Render', 'MV.Model.Pitch', 'MV.Model.Rel', 'MV.Model.Basic']
 DRIVERS = ['C13']
 GEN = ['Tables', 'Library']
-SRC_TIE = ['SrcSlice']   # py2lean source image of get_melody_between proved equal to the model (MV/Props/TieSlice.lean)
+SRC_TIE = ['SrcSlice', 'SrcBetween', 'SrcBetweenProject']   # py2lean source images proved equal to the models: get_melody_between (MV/Props/TieSlice.lean), get_chord_between / get_score_between / repeat_until_duration on the slicing model (MV/Props/TieSrcBetween.lean), and the same plus put_on_same_chord / project_on_score on the projection model (MV/Props/TieSrcBetweenProject.lean)
 RULE = ('source x target scores: 1-4 chords each, independent chord boundaries (duration families with denominators '
         '1,2,4,8 / 3,6,12 / 5,10 / 7), sources shorter, equal and longer than the target, 1-3 parts, parts absent from '
         'some chords, rests and continuations anywhere, all note systems incl. relative notes, accidentals, per-note '
@@ -250,7 +250,9 @@ def correspondence(ctx):
     ctx.compare('renotate', 'C13', cases3)
     # kernel-level streams of the source tie (DESIGN §9.6)
     import srctie
-    srctie.run(ctx, SRC_TIE)
+    srctie.run(ctx, [g for g in SRC_TIE if not g.startswith('SrcBetween')])
+    # chord / score level kernels: bigger inputs, smaller streams
+    srctie.run(ctx, [g for g in SRC_TIE if g.startswith('SrcBetween')], quick=200, thorough=4000)
 
 
 # ----------------------------------------------------------------------------- the property, on the real objects
@@ -531,8 +533,31 @@ def check_keep_score_sound(inp):
             'expected': {p: [str(x) for x in exp[p]][:8] for p in bad}}
 
 
+def check_entry(inp):
+    """the same projection reached through the other public entry points gives the same score: a one-chord source
+    through Chord.project_on_score, a one-chord target given as a Chord, flags given positionally
+    (seed C13-6: the Chord wrapper stopped forwarding keep_score)"""
+    src, tgt, fl = load(inp)
+    res, exc = run(src, tgt, fl)
+    ref = f'ERR:{type(exc).__name__}' if exc is not None else str(res)
+    outs = {}
+    if len(src.chords) == 1:
+        outs['Chord.project_on_score'] = py_res(lambda: str(src.chords[0].project_on_score(tgt, **fl)))
+    if len(tgt.chords) == 1:
+        outs['target given as a Chord'] = py_res(lambda: str(src.project_on_score(tgt.chords[0], **fl)))
+    outs['flags positional'] = py_res(lambda: str(src.project_on_score(tgt, fl['keep_pitch'], fl['voice_leading'], fl['keep_score'],
+                                                                       fl['repeat_to_duration'], fl['allow_override'])))
+    for how, got in outs.items():
+        if got.startswith('ERR:') and ref.startswith('ERR:'):
+            continue
+        if got != ref:
+            return {'observed': {how: got[:500]}, 'expected': ref[:500]}
+    return None
+
+
 ORACLES = {'total': check_total, 'chords': check_chords, 'duration': check_duration, 'rhythm': check_rhythm,
-           'sound': check_sound, 'keep_score': check_keep_score, 'keep_score_sound': check_keep_score_sound}
+           'sound': check_sound, 'keep_score': check_keep_score, 'keep_score_sound': check_keep_score_sound,
+           'entry': check_entry}
 
 
 def mode_key(fl):
@@ -549,8 +574,10 @@ def evaluate(ctx, inp, ft=None):
         return
     ft = ft if ft is not None else features(src, tgt)
     mk = mode_key(fl)
-    for name in ('total', 'chords', 'duration', 'rhythm', 'sound', 'keep_score'):
+    for name in ('total', 'chords', 'duration', 'rhythm', 'sound', 'keep_score', 'entry'):
         if name == 'sound' and not fl['keep_pitch']:
+            continue
+        if name == 'entry' and len(src.chords) > 1 and len(tgt.chords) > 1 and hash(inp['src']) % 4:
             continue
         if name == 'keep_score' and not fl['keep_score']:
             continue
